@@ -1768,6 +1768,14 @@ class EntityTemplate(Block):
                 for name, sig in block._ports.items():
                     decl: Port = port_decl[name]
 
+                    if decl.is_inout():
+                        # The port can drive the connected object (resolved like the other
+                        # drivers of a bus), an input port of the entity cannot be driven.
+                        if isinstance(sig._root, Port) and sig._root.is_input():
+                            raise AssertionError(
+                                f"inout port '{name}' of entity instantiation '{block.name()}' is connected to the input port '{sig._root._name}'"
+                            )
+
                     if not decl.is_output():
                         continue
 
